@@ -3,6 +3,7 @@
 From Coq Require Import List NArith ZArith Bool.
 From Coq.Strings Require Import Byte.
 From Connect Require Import Bytes Generated Codes Timeout.
+From Connect Require Plumbing.
 Import ListNotations.
 Local Open Scope N_scope.
 
@@ -130,3 +131,9 @@ Theorem inexpressible_sent_as_no_timeout : forall h c dl,
   call_header h c = None.
 Proof. exact inexpressible_sent_as_none_lemma. Qed.
 Print Assumptions inexpressible_sent_as_no_timeout.
+
+(* the deadline [c_deadline] of a call is that of the context the client's
+   interceptor chain hands down — a deadline imposed by an interceptor included *)
+Theorem interceptor_context_is_the_calls_context : client_new_conn_uses_chain_context = true.
+Proof. exact Plumbing.chain_context_reaches_the_call. Qed.
+Print Assumptions interceptor_context_is_the_calls_context.
